@@ -42,6 +42,26 @@ def tables():
     return _T
 
 
+_NORM = {}
+
+
+def norm_table(form):
+    if form in _NORM:
+        return _NORM[form]
+    changed = []
+    by_len = {}
+    for cp in range(sys.maxunicode + 1):
+        if 0xD800 <= cp <= 0xDFFF:
+            continue
+        ch = builtins.chr(cp)
+        r = _ud.normalize(form, ch)
+        if r != ch:
+            changed.append(cp)
+            by_len.setdefault(len(r), []).append((cp, [builtins.ord(x) for x in r]))
+    _NORM[form] = dict(changed=_intervals(changed), by_len=by_len)
+    return _NORM[form]
+
+
 def _intervals(cps):
     out = []
     s = p = None
@@ -178,6 +198,28 @@ class UnicodeShim(object):
                 return _ud.category(builtins.chr(c))
             return SymCat(c)
         return _ud.category(ch)
+
+    @staticmethod
+    def normalize(form, s):
+        if not isinstance(s, SymStr):
+            return _ud.normalize(form, s)
+        if all(isinstance(c, int) for c in s.cps):
+            return _ud.normalize(form, s.simplify())
+        if len(s) != 1:
+            raise ModelGap("unicodedata.normalize of a symbolic string longer than 1")
+        c = s.cps[0]
+        tab = norm_table(form)
+        e = cur()
+        if not e.branch(in_intervals(c, tab["changed"])):
+            return s
+        for n, ents in sorted(tab["by_len"].items()):
+            cond = Or(*[c == cp for cp, _ in ents]) if len(ents) < 400 else in_intervals(c, _intervals([cp for cp, _ in ents]))
+            if e.branch(cond):
+                k = len(e.zvars)
+                outs = [e.integer("norm%d_%d" % (k, i), 0, sys.maxunicode) for i in range(n)]
+                e.assume(Or(*[And(c == cp, *[outs[i] == res[i] for i in range(n)]) for cp, res in ents]))
+                return SymStr(outs)
+        raise ModelGap("normalize table incomplete")
 
     @staticmethod
     def decomposition(ch):
